@@ -435,6 +435,8 @@ func cmdCorr(seed uint64, n int, exh int) {
 			fmt.Fprintln(out, failLine(f, "cfg:"+m.cfg+" shapes:"+m.shapes+" hex:"+hx.Hex(jobs[i].data), "synthesized shape list"))
 		}
 	}
+	// C: count-field inflation of the table boxes (the prologues modelled in coq/c04/C04AllocModel.v)
+	corrCounts(r, n/2)
 	fmt.Fprintf(out, "STATS\t%d\t%d\t%d\t%d\n", rstats.ns, rstats.n, rstats.alloc, rstats.restarts)
 }
 
